@@ -10,6 +10,8 @@ sys.path.insert(0, HERE)
 import vlib  # noqa: E402
 
 sys.path.insert(0, vlib.REPO)
+import codec_build  # noqa: E402
+codec_build.install()   # the C codec is rebuilt from /repo's current sources
 
 
 def main():
